@@ -13,10 +13,18 @@ called ``buf``, whether the loop uses ``continue`` or ``elif``, whether the
 quoting lives in a helper, whether the parser uses findall or finditer does not
 enter.
 
-The byte tables (escape class, escape map, unslash regex, fast-path class) are
-the constants folded from the source (E3/E4) and are compared exhaustively over
-the 256 byte values with the RFC 6265 section 4.1.1 cookie-octet table; the two
-substitution callbacks are evaluated on every one of those bytes.
+The byte tables (escape class, escape map, unslash regex) are the constants
+folded from the source (E3/E4) and are compared exhaustively over the 256 byte
+values with the RFC 6265 section 4.1.1 cookie-octet table; the two substitution
+callbacks are evaluated on every one of those bytes.
+
+The quote-free fast path is decided on the *set of values that take it*: the
+regular language accepted by the test actually used (pattern tree, fullmatch /
+match / search, the anchors ^ $ \\A \\Z and what they mean under the pattern's
+flags, the edge of the test on which the value is emitted raw), computed by
+``_c13_helpers.RegexLang``.  ``match`` + ``\\Z``, ``search`` + ``\\A...\\Z``,
+``fullmatch`` and "no unsafe character found" accept the same set; ``match`` +
+``$`` accepts one trailing newline more.
 """
 
 from __future__ import annotations
@@ -40,8 +48,13 @@ LEVEL_TEXT = (
     "matched whole by the parser's unslash regex and mapped back to the byte by the parser's callback; the parser "
     "unescapes exactly the text between the quotes of quoted values only (one representative per class of length 0/1/>=2 "
     "x first/last character a quote), in one pass, decodes it as UTF-8 and stores the result untransformed; (R13.3) the "
-    "unquoted fast path is a fullmatch of a re.ASCII class contained in the cookie-octets and a matching value is emitted "
-    "unchanged; (R13.4) otherwise the UTF-8 bytes are substituted, decoded as ASCII and wrapped in quotes; (R13.5) the "
+    "set of values that take the quote-free path contains only strings of cookie-octets: that set is computed as a regular "
+    "language from the re._parser tree of the test's pattern, the method used (fullmatch / match / search: what may surround "
+    "the matched text), its anchors (^ $ \\A \\Z, under re.M or not: '$' also holds before one trailing newline), its flags "
+    "(re.A / re.I / re.S / re.M, global or scoped), the subject (the value or its UTF-8 bytes) and the edge of the test on "
+    "which the value is emitted raw (the test succeeds / the test finds nothing); a shortest offending value is reported; a "
+    "value on that path is emitted unchanged, every other value is escaped and quoted (a pattern with look-around, "
+    "back-references, \\b or possessive/atomic groups is not decided: exit 2); (R13.4) otherwise the UTF-8 bytes are substituted, decoded as ASCII and wrapped in quotes; (R13.5) the "
     "returned header is the pair followed by exactly the attributes Domain, Expires, Max-Age, Secure, HttpOnly, Path, "
     "SameSite, Partitioned in that order joined with '; ', None/False omitted, True as bare name, anything else as "
     "name=value; SameSite is title-cased and anything but Strict/Lax/None raises ValueError, path and domain pass their "
@@ -50,7 +63,7 @@ LEVEL_TEXT = (
     "the pair as an attribute. It decides these clauses, not the round-trip law over all of Unicode (which follows from "
     "them plus UTF-8 being a bijection, not checked)."
 )
-TRUSTED = ["CPython ast and re._parser", "the abstract interpreter of wzsa/rules/_c13_helpers.py models the Python subset used by the analysed functions faithfully (anything outside the subset is ANALYSIS-ERROR)", "RFC 6265 section 4.1.1 cookie-octet table embedded as a constant", "urllib.parse.quote escapes every non-safe non-alphanumeric character", "the idna codec outputs ASCII"]
+TRUSTED = ["CPython ast and re._parser", "the automaton construction of wzsa/rules/_c13_helpers.py (RegexLang) accepts exactly the subjects for which the re engine's match / fullmatch / search succeeds, for patterns built from literals, classes, categories, '.', repeats, alternation, groups, scoped flags and the anchors ^ $ \\A \\Z (anything else is ANALYSIS-ERROR); re.IGNORECASE on str patterns without re.ASCII is modelled through the one-character lower/upper mappings of str", "the abstract interpreter of wzsa/rules/_c13_helpers.py models the Python subset used by the analysed functions faithfully (anything outside the subset is ANALYSIS-ERROR)", "RFC 6265 section 4.1.1 cookie-octet table embedded as a constant", "urllib.parse.quote escapes every non-safe non-alphanumeric character", "the idna codec outputs ASCII"]
 ASSUMPTIONS = ["cookie key is a token (as the property states)", "Expires passed as a raw str by the application is not constrained"]
 
 # RFC 6265 4.1.1: cookie-octet = %x21 / %x23-2B / %x2D-3A / %x3C-5B / %x5D-7E
@@ -91,13 +104,128 @@ def unfmt(h: t.Any) -> t.Any:
     return h
 
 
+_MATCH_METHODS = ("fullmatch", "match", "search")
+
+
+def _re_flags(v: t.Any) -> int:
+    if v is None:
+        return 0
+    if isinstance(v, int):
+        return int(v)
+    if isinstance(v, Ref) and v.fq.startswith("re.") and isinstance(getattr(re, v.fq[3:], None), re.RegexFlag):
+        return int(getattr(re, v.fq[3:]))
+    raise AnalysisError(f"regex flags `{show(v)[:40]}` are not a constant")
+
+
 def is_match_test(s: Sym) -> tuple[RegexConst, str, t.Any] | None:
-    """``RX.fullmatch(x)`` / ``re.fullmatch(RX, x)`` -> (regex, method, subject)"""
-    if s.op == "method" and isinstance(s.args[0], RegexConst) and s.args[1] in ("fullmatch", "match", "search") and s.args[2]:
-        return s.args[0], s.args[1], s.args[2][0]
-    if s.op == "call" and isinstance(s.args[0], Ref) and s.args[0].fq in ("re.fullmatch", "re.match", "re.search") and len(s.args[1]) >= 2 and isinstance(s.args[1][0], RegexConst):
-        return s.args[1][0], s.args[0].fq[3:], s.args[1][1]
+    """``RX.fullmatch(x)`` / ``re.fullmatch(RX, x)`` / ``re.fullmatch("pattern", x, flags)`` (also match, search) ->
+    (regex, method, subject)"""
+    if s.op == "method" and isinstance(s.args[0], RegexConst) and s.args[1] in _MATCH_METHODS:
+        a, kw = list(s.args[2]), dict(s.args[3])
+        if len(a) > 1 or set(kw) - {"string"} or len(a) + len(kw) != 1:
+            raise AnalysisError(f"`{show(s)[:80]}`: a regex test with pos / endpos is not modelled")
+        return s.args[0], s.args[1], (a[0] if a else kw["string"])
+    if s.op == "call" and isinstance(s.args[0], Ref) and s.args[0].fq in tuple("re." + m for m in _MATCH_METHODS):
+        a, kw = list(s.args[1]), dict(s.args[2])
+        names = ["pattern", "string", "flags"]
+        if len(a) > 3 or set(kw) - set(names[len(a):]):
+            return None
+        bound = {**dict(zip(names, a)), **kw}
+        rx, flags = bound.get("pattern"), _re_flags(bound.get("flags"))
+        if isinstance(rx, (str, bytes)):
+            rx = RegexConst(rx, flags)
+        elif not (isinstance(rx, RegexConst) and not flags):
+            return None
+        if "string" not in bound:
+            return None
+        return rx, s.args[0].fq[3:], bound["string"]
     return None
+
+
+def utf8_bytes_of(term: t.Any, what: t.Any) -> bool:
+    """``term`` is ``what.encode()`` / ``what.encode("utf-8")``"""
+    root, ch = H.chain(term)
+    return bool(
+        root == what
+        and len(ch) == 1
+        and ch[0][0] == "encode"
+        and len(ch[0][1]) <= 1
+        and not (set(ch[0][2]) - {"encoding"})
+        and (list(ch[0][1]) + [ch[0][2].get("encoding", "utf-8")])[0] in ("utf-8", "utf8")
+    )
+
+
+# ---------------------------------------------------------------------
+# the language of the fast-path test
+
+
+def _octet_cuts() -> list[int]:
+    cuts = [0x80]
+    for c in range(0x81):
+        if (c in COOKIE_OCTETS) != (c - 1 in COOKIE_OCTETS):
+            cuts.append(c)
+    return cuts
+
+
+# well-formed UTF-8 (Unicode table 3-7) as an automaton over bytes: state -> [(lo, hi, next state)]; state 0 = between characters
+_UTF8: dict[int, list[tuple[int, int, int]]] = {
+    0: [(0x00, 0x7F, 0), (0xC2, 0xDF, 1), (0xE0, 0xE0, 2), (0xE1, 0xEC, 3), (0xED, 0xED, 4), (0xEE, 0xEF, 3), (0xF0, 0xF0, 5), (0xF1, 0xF3, 6), (0xF4, 0xF4, 7)],
+    1: [(0x80, 0xBF, 0)],
+    2: [(0xA0, 0xBF, 1)],
+    3: [(0x80, 0xBF, 1)],
+    4: [(0x80, 0x9F, 1)],
+    5: [(0x90, 0xBF, 3)],
+    6: [(0x80, 0xBF, 3)],
+    7: [(0x80, 0x8F, 3)],
+}
+_UTF8_CUTS = sorted({x for rows in _UTF8.values() for lo, hi, _n in rows for x in (lo, hi + 1)})
+
+
+class FastPath:
+    """Which values take the quote-free path?  ``test`` = (regex, method, subject kind 'str' | 'utf8'); the path is taken
+    when the test succeeds (``on_match``) or when it fails.  The three questions are reachability questions on the
+    automata of ``_c13_helpers.RegexLang``; each answer comes with the shortest value that shows it."""
+
+    def __init__(self, rx: RegexConst, method: str, subject_kind: str, on_match: bool):
+        self.rx, self.method, self.kind, self.on_match = rx, method, subject_kind, on_match
+        cuts = _octet_cuts() + (_UTF8_CUTS if subject_kind == "utf8" else [])
+        self.used = H.RegexLang(rx, method, cuts)
+        self.full = self.used if method == "fullmatch" else H.RegexLang(rx, "fullmatch", cuts)
+
+    def _mon(self, m: tuple[bool, bool, int], c: int) -> tuple[bool, bool, int] | None:
+        high, low, u = m
+        if self.kind == "utf8":
+            for lo, hi, nxt in _UTF8[u]:
+                if lo <= c <= hi:
+                    u = nxt
+                    break
+            else:
+                return None
+        if c >= 0x80:
+            high = True
+        elif c not in COOKIE_OCTETS:
+            low = True
+        return high, low, u
+
+    def _find(self, langs: list, hit: t.Callable[[tuple, bool, bool], bool]) -> str | None:
+        w = H.find_subject(langs, (False, False, 0), self._mon, lambda acc, m: m[2] == 0 and hit(acc, m[0], m[1]))
+        if w is None:
+            return None
+        return bytes(w).decode("utf-8") if self.kind == "utf8" else "".join(map(chr, w))
+
+    def beyond_fullmatch(self) -> str | None:
+        """a value the test accepts although the pattern does not span it (None: the test reads the whole value)"""
+        if not self.on_match or self.used is self.full:
+            return None
+        w = self._find([self.used, self.full], lambda acc, high, low: acc[0] and not acc[1] and (high or low))
+        return w if w is not None else self._find([self.used, self.full], lambda acc, high, low: acc[0] and not acc[1])
+
+    def raw_with(self, want_high: bool) -> str | None:
+        """a value emitted raw that contains a non-ASCII character (want_high) / is ASCII and contains a character that
+        is not a cookie-octet.  On the matching edge the pattern is read as spanning the value (``beyond_fullmatch``
+        reports the rest), on the non-matching edge the test is read as it is."""
+        lang = self.full if self.on_match else self.used
+        return self._find([lang], lambda acc, high, low: acc[0] == self.on_match and (high if want_high else (low and not high)))
 
 
 def _inside(node: ast.AST | None, fi: FuncInfo) -> ast.AST | None:
@@ -115,6 +243,7 @@ class Writer:
         self.repo = ctx.repo
         self.folder = folder
         self.fi = ctx.repo.func("http.dump_cookie")
+        self.raw_edge = True  # the answer of the fast-path test under which the value is emitted raw
         ctx.saw(self.fi)
         missing = [p for p in DUMP_PARAMS if p not in self.fi.params]
         if missing:
@@ -136,6 +265,10 @@ class Writer:
             return None
 
         return explore(self.repo, self.folder, self.fi, lambda: dict(base), oracle, None, self.ctx.saw, atoms=ATOMS)
+
+    def raw(self, **over: t.Any) -> list[Outcome]:
+        """the paths on which the value takes the quote-free path (the attributes are read on those)"""
+        return self.run(matched=self.raw_edge, **over)
 
     def headers(self, outs: list[Outcome]) -> list[Header]:
         """headers of the returning paths (a path may raise; at least one must return)"""
@@ -162,7 +295,7 @@ def run(ctx: Ctx) -> None:
 
     ctx.rule("R13.1", "escape class ESC (regex substituted over the encoded value in dump_cookie) contains every byte that is not an RFC 6265 cookie-octet")
     ctx.rule("R13.2", "the escape callback is total over ESC; each image is ASCII, backslash+self for quote/backslash else backslash+3 octal digits (first <= 3) of the byte; each image is matched whole by the parser's unslash regex and mapped back to the byte by its replacement function; the parser unescapes exactly the text between the quotes, of quoted values only, in one pass, decodes it as UTF-8 and stores the result untransformed; every pair with a non-empty key is stored, in order")
-    ctx.rule("R13.3", "the no-quote fast path is a fullmatch of a re.ASCII class contained in the cookie-octets; a matching value is emitted unchanged, any other value is escaped")
+    ctx.rule("R13.3", "every value that takes the quote-free fast path (the regular language accepted by the test actually used: pattern, method, anchors, flags, edge) is a string of cookie-octets; such a value is emitted unchanged, any other value is escaped")
     ctx.rule("R13.4", "the escape runs over the UTF-8 bytes of the value; escaped bytes are decoded as ASCII and wrapped in double quotes; ESC covers 0x80-0xFF")
     ctx.rule("R13.5", "the returned header is the pair followed by Domain, Expires, Max-Age, Secure, HttpOnly, Path, SameSite, Partitioned in that order joined with '; '; None/False omitted, True bare, otherwise name=value; SameSite title-cased and validated; path quoted with ';' unsafe; domain IDNA->ASCII; timedelta max_age -> int; partitioned => secure")
     ctx.rule("R13.6", "http.parse_cookie and Request.cookies reach sansio.http.parse_cookie; Response.set_cookie forwards every attribute to dump_cookie; the test client parses the text before the first ';' as the pair and reads attributes from the rest only")
@@ -186,6 +319,8 @@ def run(ctx: Ctx) -> None:
     (nq, kind, subject), ft_node = tests[0]
     qf = dump  # obligations about the quoting are reported at dump_cookie, wherever the statements live
     nq_name = H.const_name(dump.module, folder, nq)
+    if not nq_name.isidentifier():
+        nq_name = "re.compile(<pattern>)"
 
     hm, hu = W.headers(outs_m), W.headers(outs_u)
     if not hm or not hu:
@@ -195,16 +330,24 @@ def run(ctx: Ctx) -> None:
     def pair_ok(h: Header) -> bool:
         return h.skeleton == f"{HOLE}={HOLE}" and params_in(h.holes[0]) == {"key"} and h.holes[1] == V
 
-    raw_ok = all(pair_ok(h) for h in hm)
-
     def quoted_term(h: Header) -> t.Any:
         if h.skeleton == f'{HOLE}="{HOLE}"' and params_in(h.holes[0]) == {"key"}:
             return h.holes[1]
         return None
 
-    qterms = [quoted_term(h) for h in hu]
+    # which edge of the test is the quote-free one?  ("quote unless the value matches SAFE*" and "quote if the value
+    # contains an UNSAFE character" are the same function; which of the two a tree uses is read off the values emitted)
+    RAW = not (all(pair_ok(h) for h in hu) and all(quoted_term(h) is not None for h in hm))
+    W.raw_edge = RAW
+    h_raw, h_esc = (hm, hu) if RAW else (hu, hm)
+    if any(pair_ok(h) for h in h_raw) and any(quoted_term(h) is not None for h in h_raw):
+        # e.g. `m is None or m.end() != len(value)`: the set of raw values is the test's language cut down by something else
+        more = sorted({show(d[0])[:60] for o in (outs_m if RAW else outs_u) for d in o.forks})
+        raise AnalysisError(f"dump_cookie: whether the value is emitted raw depends on more than the regex test ({more}); the set of fast-path values is not computed")
+    raw_ok = all(pair_ok(h) for h in h_raw)
+    qterms = [quoted_term(h) for h in h_esc]
     subs = []
-    for h in hu + hm:  # (a flipped test puts the escape on the matching edge: still the escape slot, and R13.3 reports it)
+    for h in h_esc + h_raw:
         for s in H.walk_terms(h.holes):
             rs = H.as_regex_sub(s)
             if rs is not None and isinstance(rs[0].pattern, bytes):
@@ -277,22 +420,45 @@ def run(ctx: Ctx) -> None:
     R.report()
 
     # ---- R13.3 -----------------------------------------------------
-    NQ, _rep = single_class(nq, 256)
-    NQ_full, _ = single_class(nq, 0x3000)
     ft_at = _inside(ft_node, dump)
-    ctx.ob("R13.3", "fast path uses fullmatch", kind == "fullmatch" and subject == V, f"{nq_name}.{kind}({show(subject)})", qf, ft_at, "fast path match kind")
+    edge = "succeeds" if RAW else "fails"
+    test_txt = f"{nq_name}.{kind}({show(subject)})"
+    if subject == V:
+        subject_kind = "str"
+    elif utf8_bytes_of(subject, V):
+        subject_kind = "utf8"
+    else:
+        root, ch = H.chain(subject)
+        if root == V and ch and all(c[0] in ("strip", "lstrip", "rstrip", "lower", "upper", "title", "casefold", "capitalize", "swapcase", "replace", "[]") for c in ch):
+            subject_kind = ""  # a different string is tested than the one emitted
+        else:
+            raise AnalysisError(f"dump_cookie: the fast-path test `{test_txt}` is not applied to the value or its UTF-8 bytes")
+    if subject_kind and isinstance(nq.pattern, bytes) != (subject_kind == "utf8"):
+        raise AnalysisError(f"dump_cookie: `{test_txt}` applies a {'bytes' if isinstance(nq.pattern, bytes) else 'str'} pattern to a {'bytes' if subject_kind == 'utf8' else 'str'} subject")
+    pat_txt = f"pattern {nq.pattern!r} flags={nq.flags}"
+    if subject_kind:
+        fp = FastPath(nq, kind, subject_kind, RAW)
+        beyond, high, low = fp.beyond_fullmatch(), fp.raw_with(True), fp.raw_with(False)
+        anchors = f" with anchors {' '.join(fp.used.anchors)}" if fp.used.anchors else ""
+        if not RAW:
+            span_fact = f"the value is emitted raw when `{test_txt}` finds nothing; every position of the value is tried by {kind}"
+        elif beyond is None:
+            span_fact = f"`{test_txt}`{anchors} ({pat_txt}) accepts exactly the values that the pattern spans from the first to the last character"
+        else:
+            span_fact = f"`{test_txt}`{anchors} ({pat_txt}) accepts {beyond!r}, which the pattern does not span (fullmatch rejects it): that value is emitted raw"
+        ctx.ob("R13.3", "the fast-path test constrains the whole value (what it accepts is what a fullmatch of the pattern accepts)", beyond is None, span_fact, qf, ft_at, "fast path match kind")
+        ctx.ob("R13.3", "no value with a non-ASCII character takes the fast path", high is None, f"value for which `{test_txt}` {edge}: " + ("every character is ASCII" if high is None else f"e.g. {high!r} ({pat_txt})"), qf, ft_at, "fast path ascii")
+        ctx.ob("R13.3", "no ASCII value with a character outside the cookie-octets takes the fast path", low is None, f"value for which `{test_txt}` {edge}: " + ("every character is a cookie-octet" if low is None else f"e.g. {low!r}, emitted raw ({pat_txt})"), qf, ft_at, "fast path subset")
+    else:
+        ctx.ob("R13.3", "the fast-path test constrains the whole value (what it accepts is what a fullmatch of the pattern accepts)", False, f"`{test_txt}` tests a transformed copy, the value itself is emitted", qf, ft_at, "fast path match kind")
     esc_ok = all(q is not None for q in qterms)
-    ctx.ob("R13.3", "escaping happens exactly on the non-matching edge", esc_ok, f"value not matched by {nq_name}: emitted as {[show(q)[:100] if q is not None else h.skeleton.replace(HOLE, '{}') for q, h in zip(qterms, hu)]}", qf, ft_at, "fast path polarity")
-    ctx.ob("R13.3", "a matching value is emitted unchanged", raw_ok, f"value matched by {nq_name}: header {[show_header(h) for h in hm]}", qf, ft_at, "fast path passes value through")
-    ctx.ob("R13.3", "fast path class is ASCII-only", bool(nq.flags & re.A) and all(c < 128 for c in NQ_full), f"{nq_name} flags={nq.flags}", qf, ft_at, "fast path ascii")
-    extra = sorted(NQ - COOKIE_OCTETS)
-    ctx.ob("R13.3", "fast path class within cookie-octets", not extra, f"{nq_name} admits {len(NQ)} byte values; outside cookie-octets: {[hex(x) for x in extra]}", qf, ft_at, "fast path subset")
+    ctx.ob("R13.3", "a value that does not take the fast path is escaped and quoted", esc_ok, f"`{test_txt}` {'fails' if RAW else 'succeeds'}: emitted as {[show(q)[:100] if q is not None else h.skeleton.replace(HOLE, '{}') for q, h in zip(qterms, h_esc)]}", qf, ft_at, "fast path polarity")
+    ctx.ob("R13.3", "a value that takes the fast path is emitted unchanged", raw_ok, f"`{test_txt}` {edge}: header {[show_header(h) for h in h_raw]}", qf, ft_at, "fast path passes value through")
 
     # ---- R13.4 -----------------------------------------------------
     hi = [b for b in range(0x80, 0x100) if b not in ESC]
     ctx.ob("R13.4", "high bytes escaped", not hi, f"{len(hi)} bytes >= 0x80 outside {esc_name}", dump, None, "high bytes")
-    root, ch = H.chain(esc_subject)
-    enc_ok = root == V and len(ch) == 1 and ch[0][0] == "encode" and len(ch[0][1]) <= 1 and not (set(ch[0][2]) - {"encoding"}) and (list(ch[0][1]) + [ch[0][2].get("encoding", "utf-8")])[0] in ("utf-8", "utf8") and not esc_extra
+    enc_ok = utf8_bytes_of(esc_subject, V) and not esc_extra
     ctx.ob("R13.4", "substitution runs over UTF-8 bytes of the value", bool(enc_ok), f"`{show(esc_subject)}`", qf, sub_node, "utf8 encode")
     wrapped_ok = bool(qterms)
     for q in qterms:
@@ -304,13 +470,13 @@ def run(ctx: Ctx) -> None:
             # every byte >= 0x80 is escaped ("high bytes escaped" above), so any ASCII-compatible codec decodes the same text
             ok = isinstance(codec, str) and codec.lower().replace("_", "-") in ("ascii", "us-ascii", "utf-8", "utf8", "latin-1", "latin1", "iso-8859-1") and not hi
         wrapped_ok = wrapped_ok and bool(ok)
-    ctx.ob("R13.4", "escaped value is decoded as ASCII and wrapped in double quotes", wrapped_ok, f"{[show_header(h)[:160] for h in hu]}", qf, sub_node, "ascii decode and quote wrap")
+    ctx.ob("R13.4", "escaped value is decoded as ASCII and wrapped in double quotes", wrapped_ok, f"{[show_header(h)[:160] for h in h_esc]}", qf, sub_node, "ascii decode and quote wrap")
 
     # ---- R13.5 -----------------------------------------------------
-    pair_first = all(h.skeleton.startswith(f"{HOLE}={HOLE}") and params_in(h.holes[0]) == {"key"} and h.holes[1] == V for h in hm)
-    ctx.ob("R13.5", "pair emitted first as key=value", pair_first, f"plain call returns {[show_header(h) for h in hm]}", dump, dump.node, "pair first")
+    pair_first = all(h.skeleton.startswith(f"{HOLE}={HOLE}") and params_in(h.holes[0]) == {"key"} and h.holes[1] == V for h in h_raw)
+    ctx.ob("R13.5", "pair emitted first as key=value", pair_first, f"plain call returns {[show_header(h) for h in h_raw]}", dump, dump.node, "pair first")
 
-    all_set = W.run(matched=True, domain=param("domain", "str"), expires=param("expires", "datetime"), max_age=param("max_age", "int"), secure=True, httponly=True, path=param("path", "str"), samesite="Lax", partitioned=True)
+    all_set = W.raw(domain=param("domain", "str"), expires=param("expires", "datetime"), max_age=param("max_age", "int"), secure=True, httponly=True, path=param("path", "str"), samesite="Lax", partitioned=True)
     full = W.headers(all_set)
     no_full = "" if full else f"dump_cookie does not return with every attribute set: {sorted({'raises ' + str(o.exc) for o in all_set})}; "
     want_items = [f"Domain={HOLE}", f"Expires={HOLE}", f"Max-Age={HOLE}", "Secure", "HttpOnly", f"Path={HOLE}", "SameSite=Lax", "Partitioned"]
@@ -325,7 +491,7 @@ def run(ctx: Ctx) -> None:
         wiring_ok = wiring_ok and [params_in(x) for x in h.holes] == want_roots
     shown = [show_header(h)[:400] for h in full]
     for flag, tail in (("secure", "; Secure"), ("httponly", "; HttpOnly")):
-        hs = W.headers(W.run(matched=True, **{flag: True}))
+        hs = W.headers(W.raw(**{flag: True}))
         got = sorted({h.skeleton for h in hs})
         if got != [f"{HOLE}={HOLE}{tail}"]:
             wiring_ok = False
@@ -345,7 +511,7 @@ def run(ctx: Ctx) -> None:
     facts = []
     table_ok = form_ok
     for label, over, tail in table:
-        hs = W.headers(W.run(matched=True, **over))
+        hs = W.headers(W.raw(**over))
         got = sorted({h.skeleton[len(f"{HOLE}={HOLE}"):] if h.skeleton.startswith(f"{HOLE}={HOLE}") else h.skeleton for h in hs})
         facts.append(f"{label}: {got}")
         table_ok = table_ok and got == [tail]
@@ -356,7 +522,7 @@ def run(ctx: Ctx) -> None:
     ss_ok = True
     ss_facts = []
     for s_in in ["strict", "Strict", "STRICT", "lax", "LAX", "none", "None", "NONE", "", "foo", "lax ", "Lax; Secure", "strict,", "no ne"]:
-        outs = W.run(matched=True, samesite=s_in)
+        outs = W.raw(samesite=s_in)
         valid = s_in.title() in ("Strict", "Lax", "None")
         for o in outs:
             if valid:
@@ -388,7 +554,7 @@ def run(ctx: Ctx) -> None:
 
     def emitted(name: str, **over: t.Any) -> tuple[list[t.Any], str]:
         """what follows `name=` in the header when only that attribute is given (one entry per returning path)"""
-        outs = W.run(matched=True, **over)
+        outs = W.raw(**over)
         hs = W.headers(outs)
         if not hs:
             return [None], f"dump_cookie does not return: {sorted({'raises ' + str(o.exc) for o in outs})}; "
@@ -430,7 +596,7 @@ def run(ctx: Ctx) -> None:
         ma_fact = f"{why}Max-Age of a timedelta emitted as `{show(x)[:100]}`"
         ma_ok = ma_ok and good
     ctx.ob("R13.5", "timedelta max_age -> int seconds", ma_ok, ma_fact, dump, dump.node, "max_age")
-    ps_outs = W.run(matched=True, partitioned=True, secure=False)
+    ps_outs = W.raw(partitioned=True, secure=False)
     ps = W.headers(ps_outs)
     ps_ok = bool(ps) and all(h.skeleton == f"{HOLE}={HOLE}; Secure; Partitioned" for h in ps)
     ctx.ob("R13.5", "partitioned implies secure", ps_ok, f"partitioned=True, secure=False: {[show_header(h) for h in ps] or sorted({'raises ' + str(o.exc) for o in ps_outs})}", dump, dump.node, "partitioned secure")
